@@ -12,6 +12,7 @@ ERR    every hard-error exit that is reachable while the declared message is not
 from engine.lin import Lin
 from engine.values import Enum, Int, Slice, Struct, Top
 from rules import lib_parse
+from rules.spec import dlt_spec
 from rules.C04 import spec_header_len, spec_header_len_min
 
 FN = lib_parse.INTERN
@@ -70,7 +71,7 @@ def min_end(eng, st, wsh, fixed_A=None):
     return Lin.const(4), "4"
 
 
-def check_exits(ctx, eng, outs, fn, b, consume=False):
+def check_exits(ctx, eng, outs, fn, b, consume=False, strict_verdict=False):
     R = ctx.report
     ilen = Lin.sym("len(input)")
     fl, ln = b["span"]["f"], b["span"]["l"]
@@ -152,6 +153,17 @@ def check_exits(ctx, eng, outs, fn, b, consume=False):
                         H = spec_header_len(bits)
                         if H is not None and st.holds(Lin.const(H - 1).sub(Lin.sym(Lname)), eng):
                             just = "declared length smaller than the headers announced by the header type"
+                            if strict_verdict:
+                                # verdict order for arbitrary byte strings (C02): a buffer that ends inside the standard
+                                # header is 'incomplete' whatever its length field says — the rejection may only be
+                                # reached once every standard-header field announced by HTYP is buffered
+                                hb = dlt_spec.HTYP_BITS
+                                hstd = 4 + 4 * sum(bits.get(hb[x], 1) for x in ("WEID", "WSID", "WTMS"))
+                                if st.holds(ilen.sub(A).sub(Lin.const(hstd)), eng):
+                                    R.obligation("VERDICT", "%s|reject-after-header|%d" % (fn, n_err), "discharged", "len(input) >= A + %d (the announced standard header is buffered) on this rejecting exit" % hstd)
+                                    R.instance("VERDICT", "rejecting exit with the standard header complete")
+                                else:
+                                    R.violation("VERDICT", fn + "|reject-before-header-complete", "a rejection (%s: length field smaller than the headers) is reachable while the standard header announced by HTYP (%d bytes) is not known to be completely buffered: a buffer ending inside the header must be reported incomplete, whatever its length field says" % (en, hstd), function=fn, file=fl, line=ln)
                     if just:
                         R.obligation("ERR", "%s|hard-error-justified|%d" % (fn, n_err), "discharged", just)
                     else:
@@ -164,13 +176,13 @@ def _shape(lin):
     return re.sub(r"#\d+", "#", repr(lin))
 
 
-def check(ctx):
+def check(ctx, strict_verdict=False):
     F, R = ctx.facts, ctx.report
     eng, outs = lib_parse.level1(ctx)
     if eng is None:
         R.violation("ANCHOR", "missing|" + FN, "anchor function %s not found" % FN, kind="ANCHOR-MISSING")
         return
-    a = check_exits(ctx, eng, outs, FN, F.body(FN))
+    a = check_exits(ctx, eng, outs, FN, F.body(FN), strict_verdict=strict_verdict)
     e2, outs2 = lib_parse.standalone(ctx, CONSUME)
     c = check_exits(ctx, e2, outs2, CONSUME, F.body(CONSUME), consume=True)
     # a prefix must be *reported*: a panic on the way (overflow in a length computation, an index past the prefix) is
